@@ -85,7 +85,7 @@ def apply_wrappers(v, kinds):
     return v
 
 
-def build(inner, extra_rules, extra_stmts, kinds, bound, named):
+def build(inner, extra_rules, extra_stmts, kinds, bound, named, where='rule'):
     name, e0 = inner
     e = e0
     for k in kinds:
@@ -105,14 +105,22 @@ def build(inner, extra_rules, extra_stmts, kinds, bound, named):
         # the wrapped expression reads a bound name at the bottom
         e = ('let', 'q', ('re', '[xy]', False), e)
     stmts = [s for s in extra_stmts if s[0] in ('ignore', 'irule')]
-    stmts.append(('rule', 'start', None, e))
+    if where == 'class-field':
+        # the deep nesting sits in a class body (its own generated function with a constructor call)
+        stmts.append(('rule', 'start', None, ('apply', ('ref', 'Holder'), ('py', 'lambda h: h.v'))))
+        stmts.append(('class', 'Holder', None, [('let', 'pre', ('opt', ('str', '~'))), ('field', 'v', e)]))
+    elif where == 'template-body':
+        stmts.append(('rule', 'start', None, ('call', 'Deep', [('str', '~')])))
+        stmts.append(('rule', 'Deep', ['zz'], ('right', ('opt', ('ref', 'zz')), e)))
+    else:
+        stmts.append(('rule', 'start', None, e))
     for n, b in extra_rules.items():
         stmts.append(('rule', n, None, b))
     stmts.extend(s for s in extra_stmts if s[0] not in ('ignore', 'irule'))
     return dict(name=diff.unique_name('vt_c17') if named else None, extends=None, stmts=stmts)
 
 
-def nesting_case(rec, iname, e0, rules, stmts, wkind, depth, named, bound):
+def nesting_case(rec, iname, e0, rules, stmts, wkind, depth, named, bound, where='rule'):
     rng = rec.rng
     kinds = []
     for _ in range(depth):
@@ -123,12 +131,12 @@ def nesting_case(rec, iname, e0, rules, stmts, wkind, depth, named, bound):
     inner_e = e0
     if bound:
         inner_e = ('seq', [e0, ('py', 'q')])
-    G = build((iname, inner_e), rules, stmts, kinds, bound, named)
-    G0 = build((iname, inner_e), rules, stmts, [], bound, False)
+    G = build((iname, inner_e), rules, stmts, kinds, bound, named, where)
+    G0 = build((iname, inner_e), rules, stmts, [], bound, False, where)
     if not gen.well_formed(G):
         rec.drop()
         return
-    case = dict(kind='nesting', inner=iname, wrapper=wkind, depth=depth, named=named, bound=bound,
+    case = dict(kind='nesting', inner=iname, wrapper=wkind, depth=depth, named=named, bound=bound, where=where,
                 grammars_repr=repr([G]) if depth <= 30 else None, kinds=''.join(k[0] for k in kinds))
     d = gast.render_grammar(G, gast.Style(parens='min'))
     r = observe.compile_grammar(d)
@@ -155,7 +163,7 @@ def nesting_case(rec, iname, e0, rules, stmts, wkind, depth, named, bound):
         o = observe.observe(g, text)
         rec.case()
         if depth >= 10:
-            rec.nontrivial((iname, wkind, depth, named, bound, text))
+            rec.nontrivial((iname, wkind, depth, named, bound, where, text))
         if not observe.same_outcome(exp, o.outcome):
             rec.violation('nesting:%s->%s' % (observe.outcome_class(exp), observe.outcome_class(o.outcome)),
                           'reference model on the wrapped expression', dict(case, text_repr=repr(text), desc=d[:200]), exp, o.outcome)
@@ -311,6 +319,22 @@ def run_shard(rec):
                         rec.count('cut_by_time')
                         break
                     nesting_case(rec, iname, e0, rules, stmts, wkind, depth, named, bound=False)
+    # the same nesting inside a class body and inside a template body
+    for where in ('class-field', 'template-body'):
+        for iname, e0, rules, stmts in inners():
+            if iname in ('regex', 'choice'):
+                continue
+            for wkind in ('seq', 'opt', 'mix'):
+                for depth in depths:
+                    idx += 1
+                    if not rec.mine(idx):
+                        continue
+                    if quick and depth not in (5, 14, 15, 16, 17, 18, 19, 20, 21, 22, 36, 40, 60, 120):
+                        continue
+                    if rec.out_of_time():
+                        rec.count('cut_by_time')
+                        break
+                    nesting_case(rec, iname, e0, rules, stmts, wkind, depth, (idx % 3 == 0), False, where)
     # bound name read at the bottom of the nesting
     for wkind in ('seq', 'opt', 'mix'):
         for depth in depths:
@@ -330,6 +354,7 @@ def replay(rec, rep):
         return deep_case(rec, case['grammar'], case.get('nesting', 10000) * (1 if case.get('nesting') else 1))
     for iname, e0, rules, stmts in inners():
         if iname == case.get('inner'):
-            return nesting_case(rec, iname, e0, rules, stmts, case['wrapper'], case['depth'], case.get('named', False), False)
+            return nesting_case(rec, iname, e0, rules, stmts, case['wrapper'], case['depth'], case.get('named', False), False,
+                                case.get('where', 'rule'))
     if case.get('inner') == 'bound-name':
         nesting_case(rec, 'bound-name', ('str', 'a'), {}, [], case['wrapper'], case['depth'], False, True)
